@@ -34,6 +34,10 @@ type fnSpec struct {
 	calls            map[string]string // Go callee (canonical text) -> Lean function; "list:f" = f applied to the list of arguments
 	methods          map[string]string // method name -> Lean function taking the receiver first
 	ignore           []string          // prefixes of expression statements that are skipped (logging)
+	named            string            // name of the named result a bare `return` yields ("" = none)
+	mapVar           string            // the map a fold-loop updates
+	state            string            // Go expression of the list a void function updates in place ("" = none); Lean name `files`
+	ints             map[string]bool   // locals / parameters that are Go ints (Lean Int)
 	rn               string            // the receiver's name in the dictionary ("" = receiver not mentioned)
 	pn               []string          // the parameters' names in the dictionary, by position ("" / missing = keep)
 	mode             string            // "" plain | "err": (T, error) -> Except Bytes T | "opt": nil -> none, x -> some x
@@ -74,10 +78,89 @@ func (c *cg) fail(format string, a ...interface{}) string {
 	return "sorry_untranslatable"
 }
 
+// isInt: the expression is a Go int (so `+` is addition, not concatenation, and it lives in Lean's Int)
+func (c *cg) isInt(e ast.Expr) bool {
+	if c.s.ints == nil {
+		return false
+	}
+	switch x := e.(type) {
+	case *ast.BasicLit:
+		return x.Kind == token.INT
+	case *ast.ParenExpr:
+		return c.isInt(x.X)
+	case *ast.UnaryExpr:
+		return x.Op == token.SUB && c.isInt(x.X)
+	case *ast.Ident:
+		return c.s.ints[x.Name]
+	case *ast.BinaryExpr:
+		return (x.Op == token.ADD || x.Op == token.SUB) && c.isInt(x.X) && c.isInt(x.Y)
+	case *ast.CallExpr:
+		if exprText(x.Fun) == "len" {
+			return true
+		}
+		return strings.HasPrefix(c.s.calls[exprText(x.Fun)], "int:")
+	}
+	return false
+}
+
 func (c *cg) expr(e ast.Expr) string {
 	txt := exprText(e)
 	if v, ok := c.s.exprs[txt]; ok {
 		return v
+	}
+	// integer arithmetic and comparisons, len, slices, append
+	switch x := e.(type) {
+	case *ast.UnaryExpr:
+		if x.Op == token.SUB && c.isInt(x.X) {
+			return "(-" + c.expr(x.X) + ")"
+		}
+	case *ast.BinaryExpr:
+		if c.isInt(x.X) && c.isInt(x.Y) {
+			switch x.Op {
+			case token.ADD:
+				return "(" + c.expr(x.X) + " + " + c.expr(x.Y) + ")"
+			case token.SUB:
+				return "(" + c.expr(x.X) + " - " + c.expr(x.Y) + ")"
+			case token.LSS, token.GTR, token.LEQ, token.GEQ:
+				return "(decide (" + c.expr(x.X) + " " + x.Op.String() + " " + c.expr(x.Y) + "))"
+			}
+		}
+	case *ast.SliceExpr:
+		if x.Slice3 {
+			return c.fail("3-index slice")
+		}
+		l := c.expr(x.X)
+		if x.High != nil {
+			l = "(List.take (Int.toNat " + c.expr(x.High) + ") " + l + ")"
+		}
+		if x.Low != nil {
+			l = "(List.drop (Int.toNat " + c.expr(x.Low) + ") " + l + ")"
+		}
+		return l
+	case *ast.CallExpr:
+		switch exprText(x.Fun) {
+		case "make":
+			return "[]"
+		case "len":
+			if len(x.Args) == 1 {
+				return "(Int.ofNat (List.length " + c.expr(x.Args[0]) + "))"
+			}
+		case "append":
+			if len(x.Args) == 2 {
+				if x.Ellipsis.IsValid() {
+					return "(" + c.expr(x.Args[0]) + " ++ " + c.expr(x.Args[1]) + ")"
+				}
+				return "(" + c.expr(x.Args[0]) + " ++ [" + c.expr(x.Args[1]) + "])"
+			}
+		}
+	case *ast.CompositeLit:
+		if _, isArr := x.Type.(*ast.ArrayType); isArr { // []T{a, b}
+			var els []string
+			for _, el := range x.Elts {
+				els = append(els, c.expr(el))
+			}
+			return "[" + strings.Join(els, ", ") + "]"
+		}
 	}
 	switch x := e.(type) {
 	case *ast.ParenExpr:
@@ -107,6 +190,9 @@ func (c *cg) expr(e ast.Expr) string {
 			}
 			return "(" + bytesLit(s) + " : Pgs.Bytes)"
 		case token.INT:
+			if c.s.ints != nil {
+				return "(" + x.Value + " : Int)"
+			}
 			return x.Value
 		}
 		return c.fail("literal %s", x.Value)
@@ -191,6 +277,7 @@ func (c *cg) expr(e ast.Expr) string {
 		for _, a := range x.Args {
 			args = append(args, c.expr(a))
 		}
+		f = strings.TrimPrefix(f, "int:")
 		if strings.HasPrefix(f, "list:") {
 			f = f[5:]
 			if x.Ellipsis.IsValid() {
@@ -236,6 +323,207 @@ func (c *cg) ret(r *ast.ReturnStmt) string {
 	return c.expr(r.Results[0])
 }
 
+// appendOf: `acc = append(acc, E)` -> (acc, E)
+func appendOf(st ast.Stmt) (string, ast.Expr, bool) {
+	as, ok := st.(*ast.AssignStmt)
+	if !ok || len(as.Lhs) != 1 || len(as.Rhs) != 1 || as.Tok != token.ASSIGN {
+		return "", nil, false
+	}
+	call, ok := as.Rhs[0].(*ast.CallExpr)
+	if !ok || exprText(call.Fun) != "append" || len(call.Args) != 2 || call.Ellipsis.IsValid() || exprText(call.Args[0]) != exprText(as.Lhs[0]) {
+		return "", nil, false
+	}
+	return exprText(as.Lhs[0]), call.Args[1], true
+}
+
+// mapAppendLoop: `for k, v := range M { if C { acc = append(acc, E1) } else { acc = append(acc, E2) } }`
+// (or a single unconditional append): acc grows by one item per entry
+func (c *cg) mapAppendLoop(r *ast.RangeStmt) (string, bool) {
+	if len(r.Body.List) != 1 {
+		return "", false
+	}
+	k, _ := r.Key.(*ast.Ident)
+	v, _ := r.Value.(*ast.Ident)
+	if k == nil || v == nil {
+		return "", false
+	}
+	bind := "fun (kv_ : Pgs.Bytes × Pgs.Bytes) => let " + leanIdent(k.Name) + " := kv_.1; let " + leanIdent(v.Name) + " := kv_.2; "
+	c.s.locals[k.Name], c.s.locals[v.Name] = true, true
+	switch b := r.Body.List[0].(type) {
+	case *ast.IfStmt:
+		blk, ok := b.Else.(*ast.BlockStmt)
+		if !ok || b.Init != nil || len(b.Body.List) != 1 || len(blk.List) != 1 {
+			return "", false
+		}
+		a1, e1, ok1 := appendOf(b.Body.List[0])
+		a2, e2, ok2 := appendOf(blk.List[0])
+		if !ok1 || !ok2 || a1 != a2 {
+			return "", false
+		}
+		return "let " + leanIdent(a1) + " := " + leanIdent(a1) + " ++ List.map (" + bind + "if " + c.expr(b.Cond) + " then " + c.expr(e1) + " else " + c.expr(e2) + ") " + c.expr(r.X), true
+	default:
+		a1, e1, ok1 := appendOf(b)
+		if !ok1 {
+			return "", false
+		}
+		return "let " + leanIdent(a1) + " := " + leanIdent(a1) + " ++ List.map (" + bind + c.expr(e1) + ") " + c.expr(r.X), true
+	}
+}
+
+// foldAssignLoop: `for _, x := range L { ...if / else... m[K] = V ... }` where the body only assigns into
+// the map `mapVar`: a left fold over L
+func (c *cg) foldAssignLoop(r *ast.RangeStmt) (string, bool) {
+	if c.s.mapVar == "" {
+		return "", false
+	}
+	v, _ := r.Value.(*ast.Ident)
+	if v == nil {
+		return "", false
+	}
+	c.s.locals[v.Name] = true
+	var body func(list []ast.Stmt) (string, bool)
+	body = func(list []ast.Stmt) (string, bool) {
+		if len(list) == 0 {
+			return "m_", true
+		}
+		switch st := list[0].(type) {
+		case *ast.AssignStmt:
+			ix, ok := st.Lhs[0].(*ast.IndexExpr)
+			if !ok || len(st.Lhs) != 1 || len(st.Rhs) != 1 || exprText(ix.X) != c.s.mapVar || st.Tok != token.ASSIGN {
+				return "", false
+			}
+			restT, ok := body(list[1:])
+			if !ok {
+				return "", false
+			}
+			return "(let m_ := " + c.s.calls["assign"] + " m_ " + c.expr(ix.Index) + " " + c.expr(st.Rhs[0]) + "; " + restT + ")", true
+		case *ast.IfStmt:
+			pre := ""
+			if st.Init != nil {
+				a, ok := st.Init.(*ast.AssignStmt)
+				if !ok || len(a.Lhs) != 1 || len(a.Rhs) != 1 {
+					return "", false
+				}
+				id, ok := a.Lhs[0].(*ast.Ident)
+				if !ok {
+					return "", false
+				}
+				rhs := c.expr(a.Rhs[0])
+				c.s.locals[id.Name] = true
+				if c.isInt(a.Rhs[0]) {
+					c.s.ints[id.Name] = true
+				}
+				pre = "let " + leanIdent(id.Name) + " := " + rhs + "; "
+			}
+			if len(list) != 1 {
+				return "", false
+			}
+			thenT, ok1 := body(st.Body.List)
+			elseT, ok2 := "m_", true
+			if blk, ok := st.Else.(*ast.BlockStmt); ok {
+				elseT, ok2 = body(blk.List)
+			} else if st.Else != nil {
+				return "", false
+			}
+			if !ok1 || !ok2 {
+				return "", false
+			}
+			return "(" + pre + "if " + c.expr(st.Cond) + " then " + thenT + " else " + elseT + ")", true
+		}
+		return "", false
+	}
+	b, ok := body(r.Body.List)
+	if !ok {
+		return "", false
+	}
+	mv := leanIdent(c.s.mapVar)
+	return "let " + mv + " := List.foldl (fun m_ " + leanIdent(v.Name) + " => " + b + ") " + mv + " " + c.expr(r.X), true
+}
+
+func (c *cg) stateResult() string {
+	if c.s.mode == "err" {
+		return "(Except.ok files)"
+	}
+	return "files"
+}
+
+// runLoop recognises the run-scanning loop of tailOfFile
+func (c *cg) runLoop(f *ast.ForStmt) (string, bool) {
+	init, ok := f.Init.(*ast.AssignStmt)
+	if !ok || len(init.Lhs) != 1 || len(init.Rhs) != 1 || init.Tok != token.DEFINE {
+		return "", false
+	}
+	iv, ok := init.Lhs[0].(*ast.Ident)
+	start, ok2 := init.Rhs[0].(*ast.BinaryExpr)
+	if !ok || !ok2 || start.Op != token.ADD || exprText(start.Y) != "1" {
+		return "", false
+	}
+	v, ok := start.X.(*ast.Ident) // the variable that trails the index
+	if !ok {
+		return "", false
+	}
+	cond, ok := f.Cond.(*ast.BinaryExpr)
+	if !ok || cond.Op != token.LSS || exprText(cond.X) != iv.Name {
+		return "", false
+	}
+	lenCall, ok := cond.Y.(*ast.CallExpr)
+	if !ok || exprText(lenCall.Fun) != "len" || len(lenCall.Args) != 1 {
+		return "", false
+	}
+	lst := lenCall.Args[0]
+	if inc, ok := f.Post.(*ast.IncDecStmt); !ok || inc.Tok != token.INC || exprText(inc.X) != iv.Name {
+		return "", false
+	}
+	if len(f.Body.List) != 2 {
+		return "", false
+	}
+	brk, ok := f.Body.List[0].(*ast.IfStmt)
+	if !ok || brk.Init != nil || brk.Else != nil || len(brk.Body.List) != 1 {
+		return "", false
+	}
+	if b, ok := brk.Body.List[0].(*ast.BranchStmt); !ok || b.Tok != token.BREAK {
+		return "", false
+	}
+	as, ok := f.Body.List[1].(*ast.AssignStmt)
+	if !ok || len(as.Lhs) != 1 || exprText(as.Lhs[0]) != v.Name || exprText(as.Rhs[0]) != iv.Name || as.Tok != token.ASSIGN {
+		return "", false
+	}
+	// the break condition speaks of L[i]: read it as a predicate of the element
+	elem := exprText(lst) + "[" + iv.Name + "]"
+	saved, had := c.s.exprs[elem]
+	c.s.exprs[elem] = "x_"
+	// method calls on the element, e.g. f[i].GetName(), are looked up with the element substituted
+	pred := c.elemPred(brk.Cond, elem)
+	if had {
+		c.s.exprs[elem] = saved
+	} else {
+		delete(c.s.exprs, elem)
+	}
+	l := c.expr(lst)
+	vn := leanIdent(v.Name)
+	return "let " + vn + " := " + vn + " + Int.ofNat (List.length (List.takeWhile (fun x_ => !" + pred + ") (List.drop (Int.toNat (" + vn + " + 1)) " + l + ")))", true
+}
+
+// elemPred translates a condition about the loop's current element `elem` (text, e.g. "f[i]"):
+// calls `elem.M()` are looked up in the dictionary under "elem.M()" with elem written as `$x`
+func (c *cg) elemPred(e ast.Expr, elem string) string {
+	saved := map[string]string{}
+	for k, v := range c.s.exprs {
+		if strings.Contains(k, "$x") {
+			nk := strings.ReplaceAll(k, "$x", elem)
+			saved[nk] = v
+		}
+	}
+	for k, v := range saved {
+		c.s.exprs[k] = v
+	}
+	out := c.expr(e)
+	for k := range saved {
+		delete(c.s.exprs, k)
+	}
+	return out
+}
+
 func (c *cg) assign(a *ast.AssignStmt, rest string, ind string) string {
 	if len(a.Lhs) != 1 || len(a.Rhs) != 1 {
 		return c.fail("multi-assignment")
@@ -254,6 +542,9 @@ func (c *cg) assign(a *ast.AssignStmt, rest string, ind string) string {
 func (c *cg) stmts(list []ast.Stmt, k func(ind string) string, ind string) string {
 	if len(list) == 0 {
 		if k == nil {
+			if c.s.state != "" {
+				return ind + c.stateResult()
+			}
 			return ind + c.fail("control reaches the end of the function without a return")
 		}
 		return k(ind)
@@ -261,7 +552,51 @@ func (c *cg) stmts(list []ast.Stmt, k func(ind string) string, ind string) strin
 	rest := func(i string) string { return c.stmts(list[1:], k, i) }
 	switch s := list[0].(type) {
 	case *ast.ReturnStmt:
+		if c.s.state != "" && len(s.Results) == 0 {
+			return ind + c.stateResult()
+		}
+		if c.s.named != "" && len(s.Results) == 0 {
+			return ind + leanIdent(c.s.named)
+		}
 		return ind + c.ret(s)
+	case *ast.RangeStmt:
+		// `for i, x := range L { if C { return E } }`: the first element satisfying C, if any
+		if len(s.Body.List) == 1 {
+			if ifs, ok := s.Body.List[0].(*ast.IfStmt); ok && ifs.Init == nil && ifs.Else == nil && len(ifs.Body.List) == 1 {
+				if ret, ok := ifs.Body.List[0].(*ast.ReturnStmt); ok {
+					key, _ := s.Key.(*ast.Ident)
+					val, _ := s.Value.(*ast.Ident)
+					if key != nil && val != nil {
+						l := c.expr(s.X)
+						c.s.locals[val.Name] = true
+						c.s.locals[key.Name] = true
+						if c.s.ints == nil {
+							c.s.ints = map[string]bool{}
+						}
+						c.s.ints[key.Name] = true
+						cond := c.expr(ifs.Cond)
+						hit := c.ret(ret)
+						return ind + "match List.findIdx? (fun " + leanIdent(val.Name) + " => " + cond + ") " + l + " with\n" +
+							ind + "| some idx_ =>\n" + ind + "  let " + leanIdent(key.Name) + " : Int := Int.ofNat idx_\n" + ind + "  " + hit + "\n" +
+							ind + "| none =>\n" + rest(ind+"  ")
+					}
+				}
+			}
+		}
+		if out, ok := c.mapAppendLoop(s); ok {
+			return ind + out + "\n" + rest(ind)
+		}
+		if out, ok := c.foldAssignLoop(s); ok {
+			return ind + out + "\n" + rest(ind)
+		}
+		return ind + c.fail("range loop of an unknown shape")
+	case *ast.ForStmt:
+		// `for i := E + 1; i < len(L); i++ { if C(L[i]) { break }; V = i }`: V advances over the run of
+		// elements after position E for which C is false (V = E before the loop)
+		if out, ok := c.runLoop(s); ok {
+			return ind + out + "\n" + rest(ind)
+		}
+		return ind + c.fail("for loop of an unknown shape")
 	case *ast.AssignStmt:
 		// `x, err := call; return f(x), err`: the call's result with f applied to the value
 		if len(s.Lhs) == 2 && len(s.Rhs) == 1 && exprText(s.Lhs[1]) == "err" && len(list) == 2 && c.s.mode == "err" {
@@ -288,6 +623,23 @@ func (c *cg) stmts(list []ast.Stmt, k func(ind string) string, ind string) strin
 				return ind + "match " + call + " with\n" + ind + "| .error err =>\n" + errT + "\n" + ind + "| .ok " + leanIdent(x.Name) + " =>\n" + okT
 			}
 		}
+		// the list a void function updates in place
+		if c.s.state != "" && len(s.Lhs) == 1 && len(s.Rhs) == 1 && s.Tok == token.ASSIGN {
+			if exprText(s.Lhs[0]) == c.s.state {
+				return ind + "let files := " + c.expr(s.Rhs[0]) + "\n" + rest(ind)
+			}
+			if ix, ok := s.Lhs[0].(*ast.IndexExpr); ok && exprText(ix.X) == c.s.state {
+				return ind + "let files := List.set files (Int.toNat " + c.expr(ix.Index) + ") " + c.expr(s.Rhs[0]) + "\n" + rest(ind)
+			}
+		}
+		// `x, _ := call`: the first component of the pair the call yields
+		if len(s.Lhs) == 2 && len(s.Rhs) == 1 && exprText(s.Lhs[1]) == "_" {
+			if x, ok := s.Lhs[0].(*ast.Ident); ok {
+				rhs := c.expr(s.Rhs[0])
+				c.s.locals[x.Name] = true
+				return ind + "let " + leanIdent(x.Name) + " := " + rhs + ".1\n" + rest(ind)
+			}
+		}
 		// the let scopes over the continuation, so translate the rhs first, then the rest
 		if len(s.Lhs) != 1 || len(s.Rhs) != 1 {
 			return ind + c.fail("multi-assignment")
@@ -298,6 +650,9 @@ func (c *cg) stmts(list []ast.Stmt, k func(ind string) string, ind string) strin
 		}
 		rhs := c.expr(s.Rhs[0])
 		c.s.locals[id.Name] = true
+		if c.isInt(s.Rhs[0]) {
+			c.s.ints[id.Name] = true
+		}
 		return ind + "let " + leanIdent(id.Name) + " := " + rhs + "\n" + rest(ind)
 	case *ast.DeclStmt:
 		// `var x T`: the zero value is never read in the functions translated; the name becomes a local
@@ -312,6 +667,16 @@ func (c *cg) stmts(list []ast.Stmt, k func(ind string) string, ind string) strin
 		}
 		return ind + c.fail("declaration")
 	case *ast.ExprStmt:
+		// sort.Strings(x): x sorted in place
+		if call, ok := s.X.(*ast.CallExpr); ok && exprText(call.Fun) == "sort.Strings" && len(call.Args) == 1 {
+			if id, ok := call.Args[0].(*ast.Ident); ok && c.s.locals[id.Name] {
+				return ind + "let " + leanIdent(id.Name) + " := " + c.s.calls["sort.Strings"] + " " + leanIdent(id.Name) + "\n" + rest(ind)
+			}
+		}
+		// p.Assert(cond, msg...): fail-stop unless cond
+		if call, ok := s.X.(*ast.CallExpr); ok && c.s.mode == "err" && strings.HasSuffix(exprText(call.Fun), ".Assert") && len(call.Args) >= 1 {
+			return ind + "if " + c.expr(call.Args[0]) + " then\n" + rest(ind+"  ") + "\n" + ind + "else\n" + ind + "  (Except.error ([97, 115, 115, 101, 114, 116] : Pgs.Bytes))"
+		}
 		txt := exprText(s.X)
 		for _, p := range c.s.ignore {
 			if strings.HasPrefix(txt, p) {
@@ -350,7 +715,16 @@ func (c *cg) stmts(list []ast.Stmt, k func(ind string) string, ind string) strin
 			}
 		}
 		pre := ""
-		if s.Init != nil {
+		if a, ok := s.Init.(*ast.AssignStmt); ok && len(a.Lhs) == 2 && len(a.Rhs) == 1 && exprText(a.Lhs[1]) == "_" {
+			// `if x, _ := call; cond`: the first component of the pair
+			id, ok := a.Lhs[0].(*ast.Ident)
+			if !ok {
+				return ind + c.fail("if-init statement")
+			}
+			rhs := c.expr(a.Rhs[0])
+			c.s.locals[id.Name] = true
+			pre = ind + "let " + leanIdent(id.Name) + " := " + rhs + ".1\n"
+		} else if s.Init != nil {
 			a, ok := s.Init.(*ast.AssignStmt)
 			if !ok || len(a.Lhs) != 1 || len(a.Rhs) != 1 {
 				return ind + c.fail("if-init statement")
@@ -361,6 +735,9 @@ func (c *cg) stmts(list []ast.Stmt, k func(ind string) string, ind string) strin
 			}
 			rhs := c.expr(a.Rhs[0])
 			c.s.locals[id.Name] = true
+			if c.isInt(a.Rhs[0]) {
+				c.s.ints[id.Name] = true
+			}
 			pre = ind + "let " + leanIdent(id.Name) + " := " + rhs + "\n"
 		}
 		cond := c.expr(s.Cond)
@@ -578,6 +955,47 @@ func parSpec(name, lean, binders, ret, mode string) *fnSpec {
 			"uint": "id", "uint64": "id"}}
 }
 
+func fpSpec(name, lean, binders string, pn []string) *fnSpec {
+	return &fnSpec{file: "name.go", recv: "FilePath", name: name, lean: lean, binders: binders, ret: "Pgs.Bytes", rn: "n", pn: pn,
+		exprs: map[string]string{"n.String()": "n", "n.Base()": "(filePath_Base n)", "n.Ext()": "(filePath_Ext n)", "n.BaseName()": "(filePath_BaseName n)",
+			"n.Dir()": "(filePath_Dir n)", "ext": "ext", "base": "base", "elem": "elem"},
+		calls: map[string]string{"FilePath": "id", "filepath.Dir": "Pgs.FilePath.dir", "filepath.Base": "Pgs.FilePath.base", "filepath.Ext": "Pgs.FilePath.ext",
+			"strings.TrimSuffix": "Pgs.trimSuffixB", "JoinPaths": "list:Pgs.FilePath.join", "n.SetBase": "filePath_SetBase n"},
+		methods: map[string]string{"Push": "filePath_Push"}}
+}
+
+func gnSpec(name, recv, lean, binders string, pn []string) *fnSpec {
+	return &fnSpec{file: "lang/go/name.go", recv: recv, name: name, lean: lean, binders: binders, ret: "Pgs.Bytes", rn: "c", pn: pn,
+		exprs: map[string]string{"a": "a", "b": "b", "n": "n", "b.String()": "b", "s.Name()": "serviceName", "m.Service().Name()": "serviceName", "m.Name()": "methodName",
+			"protectedNames": "Pgs.Generated.protectedNames"},
+		calls: map[string]string{"pgs.Name": "id", "fmt.Sprintf": "list:sprintf", "PGGUpperCamelCase": "Pgs.GoNames.PgsGo.camelCase",
+			"utf8.DecodeRuneInString": "decodeRuneAscii", "unicode.IsLetter": "isLetterAscii", "unicode.IsLower": "Pgs.GoNames.isLower",
+			"joinNames": "go_joinNames", "index": "lookupTbl"}}
+}
+
+func dbgSpec(recv, name, lean, binders string, pn []string) *fnSpec {
+	ret := "Pgs.Bytes"
+	if name == "prepend" {
+		ret = "List Pgs.Bytes"
+	}
+	return &fnSpec{file: "debug.go", recv: recv, name: name, lean: lean, binders: binders, ret: ret, rn: "d", pn: pn,
+		exprs: map[string]string{"prefix": "pfx", "d": "()", "d.prefix": "storedPrefix", "format": "format",
+			"append([]interface{}{d.prefix}, v...)": "(storedPrefix :: v)"},
+		calls: map[string]string{"fmt.Sprintf": "list:sprintf", "strings.HasPrefix": "hasPrefix", "lit:prefixedDebugger": "mkPrefixedDebugger parent prefix"}}
+}
+
+func perSpec(name, lean, binders, ret, mode string, pn []string) *fnSpec {
+	sp := &fnSpec{file: "persister.go", recv: "stdPersister", name: name, lean: lean, binders: binders, ret: ret, mode: mode, rn: "p", pn: pn,
+		ints: map[string]bool{},
+		exprs: map[string]string{"resp.GetFile()": "files", "resp.File": "files", "resp": "files", "name": "name", "f": "f", "overwrite": "overwrite",
+			"f.GetName()": "(getName f)", "f.InsertionPoint == nil": "(f.insertionPoint == none)", "$x.GetName()": "(getName x_)"},
+		calls: map[string]string{"p.indexOfFile": "int:persister_indexOfFile", "p.tailOfFile": "int:persister_tailOfFile"}}
+	if name == "insertFile" || name == "insertAppend" {
+		sp.state = "resp.File"
+	}
+	return sp
+}
+
 func codeSpecs() []*fnSpec {
 	return []*fnSpec{
 		// C11
@@ -595,6 +1013,25 @@ func codeSpecs() []*fnSpec {
 		pfSpec("GeneratorInjection", "generatorInjection_ProtoFile", "(fileName insertionPoint contents : Pgs.Bytes)", map[string]string{"f.FileName": "fileName", "f.InsertionPoint": "insertionPoint", "f.Contents": "contents"}),
 		pfSpec("GeneratorTemplateInjection", "generatorTemplateInjection_ProtoFile", "(fileName insertionPoint : Pgs.Bytes) (render : Except Pgs.Bytes Pgs.Bytes)", map[string]string{"f.FileName": "fileName", "f.InsertionPoint": "insertionPoint", "f.render()": "render"}),
 		// C19: the accessors of Parameters
+		func() *fnSpec {
+			sp := parSpec("String", "parameters_String", "(p : Pgs.C19.Map)", "Pgs.Bytes", "")
+			sp.calls["fmt.Sprintf"] = "list:sprintf"
+			sp.calls["sort.Strings"] = "sortStrings"
+			sp.calls["strings.Join"] = "joinStr"
+			sp.exprs["k"], sp.exprs["v"] = "k", "v"
+			return sp
+		}(),
+		func() *fnSpec {
+			sp := parSpec("ParseParameters", "parseParameters", "(p : Pgs.Bytes)", "Pgs.C19.Map", "")
+			sp.recv, sp.rn, sp.pn = "", "", []string{"p"}
+			sp.named, sp.mapVar = "params", "params"
+			sp.ints = map[string]bool{}
+			sp.calls["strings.Split"] = "splitStr"
+			sp.calls["strings.Index"] = "int:indexStr"
+			sp.exprs["params"] = "params"
+			delete(sp.exprs, "i")
+			return sp
+		}(),
 		parSpec("StrDefault", "parameters_StrDefault", "(p : Pgs.C19.Map) (name def_ : Pgs.Bytes)", "Pgs.Bytes", ""),
 		parSpec("Str", "parameters_Str", "(p : Pgs.C19.Map) (name : Pgs.Bytes)", "Pgs.Bytes", ""),
 		parSpec("SetStr", "parameters_SetStr", "(p : Pgs.C19.Map) (name s : Pgs.Bytes)", "Pgs.C19.Map", "void"),
@@ -609,6 +1046,11 @@ func codeSpecs() []*fnSpec {
 		parSpec("BoolDefault", "parameters_BoolDefault", "(p : Pgs.C19.Map) (name : Pgs.Bytes) (def_ : Bool)", "Except Pgs.Bytes Bool", "err"),
 		parSpec("Bool", "parameters_Bool", "(p : Pgs.C19.Map) (name : Pgs.Bytes)", "Except Pgs.Bytes Bool", "err"),
 		parSpec("SetBool", "parameters_SetBool", "(p : Pgs.C19.Map) (name : Pgs.Bytes) (b : Bool)", "Pgs.C19.Map", "void"),
+		// C10: the list surgery of the persister
+		perSpec("indexOfFile", "persister_indexOfFile", "(files : List RespFile) (name : Pgs.Bytes)", "Int", "", []string{"resp", "name"}),
+		perSpec("tailOfFile", "persister_tailOfFile", "(files : List RespFile) (name : Pgs.Bytes)", "Int", "", []string{"resp", "name"}),
+		perSpec("insertFile", "persister_insertFile", "(files : List RespFile) (f : RespFile) (overwrite : Bool)", "List RespFile", "", []string{"resp", "f", "overwrite"}),
+		perSpec("insertAppend", "persister_insertAppend", "(files : List RespFile) (name : Pgs.Bytes) (f : RespFile)", "Except Pgs.Bytes (List RespFile)", "err", []string{"resp", "name", "f"}),
 		// C09
 		{file: "proto.go", rn: "s", recv: "Syntax", name: "SupportsRequiredPrefix", lean: "syntax_SupportsRequiredPrefix", binders: "(s : Pgs.Bytes)", ret: "Bool",
 			exprs: map[string]string{"s": "s", "Proto2": "Pgs.Generated.syntaxProto2"}},
@@ -653,6 +1095,36 @@ func codeSpecs() []*fnSpec {
 			binders: "(name importPathE importPathF packageNameE : Pgs.Bytes)", ret: "Pgs.Bytes",
 			exprs: map[string]string{"c.Name(e)": "name", "c.ImportPath(e)": "importPathE", "c.ImportPath(f)": "importPathF", "c.PackageName(e)": "packageNameE"},
 			calls: map[string]string{"TypeName": "id", "fmt.Sprintf": "list:sprintf"}},
+		// C16: lang/go/name.go
+		gnSpec("joinNames", "", "go_joinNames", "(a b : Pgs.Bytes)", []string{"a", "b"}),
+		gnSpec("joinChild", "", "go_joinChild", "(a b : Pgs.Bytes)", []string{"a", "b"}),
+		gnSpec("replaceProtected", "", "go_replaceProtected", "(n : Pgs.Bytes)", []string{"n"}),
+		gnSpec("ServerName", "context", "context_ServerName", "(serviceName : Pgs.Bytes)", []string{"s"}),
+		gnSpec("ClientName", "context", "context_ClientName", "(serviceName : Pgs.Bytes)", []string{"s"}),
+		gnSpec("ServerStream", "context", "context_ServerStream", "(serviceName methodName : Pgs.Bytes)", []string{"m"}),
+		// C17: pgs.FilePath (name.go) and the output / import path of lang/go/package.go
+		fpSpec("Dir", "filePath_Dir", "(n : Pgs.Bytes)", nil),
+		fpSpec("Base", "filePath_Base", "(n : Pgs.Bytes)", nil),
+		fpSpec("Ext", "filePath_Ext", "(n : Pgs.Bytes)", nil),
+		fpSpec("BaseName", "filePath_BaseName", "(n : Pgs.Bytes)", nil),
+		fpSpec("Push", "filePath_Push", "(n elem : Pgs.Bytes)", []string{"elem"}),
+		fpSpec("Pop", "filePath_Pop", "(n : Pgs.Bytes)", nil),
+		fpSpec("SetBase", "filePath_SetBase", "(n base : Pgs.Bytes)", []string{"base"}),
+		fpSpec("SetExt", "filePath_SetExt", "(n ext : Pgs.Bytes)", []string{"ext"}),
+		{file: "lang/go/package.go", rn: "c", pn: []string{"e"}, recv: "context", name: "OutputPath", lean: "context_OutputPath",
+			binders: "(input : Pgs.Bytes) (sourceRelative : Bool) (optionPackage : Pgs.Bytes × Pgs.Bytes)", ret: "Pgs.Bytes",
+			exprs: map[string]string{"e.File().InputPath()": "input", "Paths(c.p) == SourceRelative": "sourceRelative", "c.optionPackage(e)": "optionPackage"},
+			calls: map[string]string{"pgs.FilePath": "id"},
+			methods: map[string]string{"SetExt": "filePath_SetExt", "Push": "filePath_Push", "Base": "filePath_Base"}},
+		{file: "lang/go/package.go", rn: "c", pn: []string{"e"}, recv: "context", name: "ImportPath", lean: "context_ImportPath",
+			binders: "(importPrefix : Pgs.Bytes) (optionPackage : Pgs.Bytes × Pgs.Bytes)", ret: "Pgs.Bytes",
+			exprs: map[string]string{"c.p.Str(\"import_prefix\")": "importPrefix", "c.optionPackage(e)": "optionPackage"},
+			calls: map[string]string{"pgs.FilePath": "id"}},
+		// C18: the prefixed debugger (debug.go)
+		dbgSpec("rootDebugger", "Push", "rootDebugger_Push", "(pfx : Pgs.Bytes)", []string{"prefix"}),
+		dbgSpec("prefixedDebugger", "Push", "prefixedDebugger_Push", "(pfx : Pgs.Bytes)", []string{"prefix"}),
+		dbgSpec("prefixedDebugger", "prepend", "prefixedDebugger_prepend", "(storedPrefix : Pgs.Bytes) (v : List Pgs.Bytes)", []string{"v"}),
+		dbgSpec("prefixedDebugger", "prependFormat", "prefixedDebugger_prependFormat", "(storedPrefix format : Pgs.Bytes)", []string{"format"}),
 		// C18: the three kinds of context, method by method
 		ctxSpec("rootContext", "OutputPath", "root_OutputPath", "(p : Pgs.Bytes)", "Pgs.Bytes", "", map[string]string{"c.p": "p"}),
 		ctxSpec("dirContext", "OutputPath", "dir_OutputPath", "(parentOutputPath p : Pgs.Bytes)", "Pgs.Bytes", "",
@@ -950,7 +1422,7 @@ func hydratePhases(repo string) (string, error) {
 
 func genCode(repo string) (string, error) {
 	var b strings.Builder
-	b.WriteString("import PgsVerif.Model.FilePath\nimport PgsVerif.Model.Context\nimport PgsVerif.Model.Params\nimport PgsVerif.Generated.Tables\n")
+	b.WriteString("import PgsVerif.Model.FilePath\nimport PgsVerif.Model.Context\nimport PgsVerif.Model.Params\nimport PgsVerif.Model.GoNames\nimport PgsVerif.Generated.Tables\n")
 	b.WriteString("/- GENERATED by harness/cmd/factgen (codegen.go) from the current source of protoc-gen-star. Do not edit:\n")
 	b.WriteString("   regenerated (and overwritten) on every run of ./check and of setup.sh. -/\n")
 	b.WriteString("set_option linter.unusedVariables false\nnamespace Pgs.GenCode\n\n")
@@ -972,9 +1444,22 @@ func genCode(repo string) (string, error) {
 	b.WriteString("def parseUintE (s : Pgs.Bytes) (base bits : Nat) : Except Pgs.Bytes Nat := if base == 10 && bits == 64 then optE (Pgs.C19.parseUint s) else .error [98]\n")
 	b.WriteString("def formatUintB (n base : Nat) : Pgs.Bytes := if base == 10 then Pgs.C19.formatNat n else []\n")
 	b.WriteString("def parseBoolE (s : Pgs.Bytes) : Except Pgs.Bytes Bool := optE (Pgs.C19.parseBool s)\n")
+	b.WriteString("def sortStrings (l : List Pgs.Bytes) : List Pgs.Bytes := l.mergeSort Pgs.C19.leB\n")
+	b.WriteString("def joinStr (l : List Pgs.Bytes) (sep : Pgs.Bytes) : Pgs.Bytes := Pgs.joinWith sep l\n")
+	b.WriteString("def splitStr (s sep : Pgs.Bytes) : List Pgs.Bytes := match sep with | [c] => Pgs.splitOn c s | _ => [s]\n")
+	b.WriteString("/-- `strings.Index` for a one-byte separator: position of its first occurrence, -1 if none -/\n")
+	b.WriteString("def indexStr (s sep : Pgs.Bytes) : Int := match sep with | [c] => (if s.contains c then Int.ofNat (s.takeWhile (· != c)).length else -1) | _ => -1\n")
 	b.WriteString("def trimSpaceB (s : Pgs.Bytes) : Pgs.Bytes := ((s.dropWhile Pgs.C19.isSpaceB).reverse.dropWhile Pgs.C19.isSpaceB).reverse\n")
+	b.WriteString("/-- names are ASCII identifiers: the first rune is the first byte -/\n")
+	b.WriteString("def decodeRuneAscii (s : Pgs.Bytes) : Nat × Nat := (s.head?.getD 0, 1)\n")
+	b.WriteString("def isLetterAscii (c : Nat) : Bool := Pgs.GoNames.isLower c || (65 ≤ c && c ≤ 90)\n")
+	b.WriteString("def lookupTbl (t : List (Pgs.Bytes × Pgs.Bytes)) (k : Pgs.Bytes) : Option Pgs.Bytes := (t.find? (·.1 == k)).map (·.2)\n")
+	b.WriteString("/-- a prefixedDebugger, as far as its output goes, is the prefix string it stores -/\n")
+	b.WriteString("def mkPrefixedDebugger (parent : Unit) (prefix_ : Pgs.Bytes) : Pgs.Bytes := prefix_\n")
 	b.WriteString("/-- plugin_go.CodeGeneratorResponse_File -/\n")
-	b.WriteString("structure RespFile where\n  name : Option Pgs.Bytes\n  insertionPoint : Option Pgs.Bytes\n  content : Option Pgs.Bytes\n")
+	b.WriteString("structure RespFile where\n  name : Option Pgs.Bytes\n  insertionPoint : Option Pgs.Bytes\n  content : Option Pgs.Bytes\nderiving DecidableEq\n")
+	b.WriteString("/-- `GetName()`: the empty string when the field is unset -/\n")
+	b.WriteString("def getName (f : RespFile) : Pgs.Bytes := f.name.getD []\n")
 	b.WriteString("/-- the struct literals of build_context.go: a prefixContext is (parent, debugger); the debugger is the list of its prefixes -/\n")
 	b.WriteString("def mkPrefixContext (parent : Pgs.C18.Ctx) (d : List Pgs.Bytes) : Pgs.C18.Ctx := .pre parent d\n")
 	b.WriteString("def mkDirContext (pc : Pgs.C18.Ctx) (p : Pgs.Bytes) : Pgs.C18.Ctx := match pc with | .pre parent d => .dir parent p d | c => c\n")
